@@ -522,6 +522,51 @@ def gen_all(repo, out, bindir):
     t += 'Definition gd_write_arms : list (Z * list Z * Z) := %s.\n' % arm_list(wr)
     write_if_changed(os.path.join(out, 'GenDuart.v'), t)
 
+    # ---- census of the constructs that can panic in a release build: explicit (unwrap / expect / panic! / unimplemented! /
+    # unreachable! / assert!), indexing and slicing, integer division and remainder; per function, test modules and the
+    # cfg(dmd_core_verif) instrumentation excluded.  Consumed by C12 (Spec/PanicSites.v pins what the model accounts for).
+    explicit, indexes, divs = [], [], []
+    for fname in ('bus.rs', 'cpu.rs', 'dmd.rs', 'duart.rs', 'err.rs', 'instr.rs', 'lib.rs', 'mem.rs', 'mouse.rs', 'utils.rs'):
+        pth = os.path.join(repo, 'src', fname)
+        if not os.path.exists(pth):
+            continue
+        src = strip_comments(open(pth).read())
+        m = re.search(r'#\[cfg\(test\)\]\s*mod\s+\w+\s*\{', src)
+        if m:
+            src = src[:m.start()]
+        for fm in re.finditer(r'\bfn\s+(\w+)\s*(<[^>]*>)?\s*\(', src):
+            name = fm.group(1)
+            if name.startswith('verif_'):
+                continue
+            try:
+                close = match_delim(src, fm.end() - 1)
+                semi = src.find(';', close)
+                i = src.index('{', close)
+                if 0 <= semi < i:
+                    continue          # a declaration without a body
+                j = match_delim(src, i)
+            except (ValueError, GenError):
+                continue
+            body = src[i + 1:j]
+            key = '%s::%s' % (fname, name)
+            for kind, pat in (('unwrap', r'\.unwrap\(\)'), ('expect', r'\.expect\('), ('panic', r'\bpanic!'),
+                              ('unimplemented', r'\bunimplemented!'), ('unreachable', r'\bunreachable!'),
+                              ('assert', r'\bassert(_eq|_ne)?!')):
+                n = len(re.findall(pat, body))
+                if n:
+                    explicit.append((key, kind, n))
+            n = len(re.findall(r'[\w\)\]]\[', body))
+            if n:
+                indexes.append((key, n))
+            n = len(re.findall(r'[^/]/[^/=*]|%[^=]|\.(?:wrapping_|checked_|overflowing_)?(?:div|rem)(?:_euclid)?\(', body))
+            if n:
+                divs.append((key, n))
+    t = '(* GENERATED by tools/gen.py from /repo/src -- do not edit *)\nFrom Coq Require Import ZArith String List.\nImport ListNotations.\nOpen Scope string_scope.\nOpen Scope Z_scope.\n\n'
+    t += 'Definition g_explicit_panics : list (string * string * Z) :=\n  [' + ';\n   '.join('("%s", "%s", %d)' % e for e in explicit) + '].\n\n'
+    t += 'Definition g_index_sites : list (string * Z) :=\n  [' + ';\n   '.join('("%s", %d)' % e for e in indexes) + '].\n\n'
+    t += 'Definition g_division_sites : list (string * Z) :=\n  [' + ';\n   '.join('("%s", %d)' % e for e in divs) + '].\n'
+    write_if_changed(os.path.join(out, 'GenPanic.v'), t)
+
     # ---- Duart::mouse_down / mouse_up translated statement by statement (straight-line field updates and one match)
     FIELDS = ('ipcr', 'inprt', 'isr', 'ivec', 'outprt', 'acr', 'imr')
 
